@@ -142,7 +142,7 @@ func runC37(c *Ctx) {
 	if rr := c.Run(which, icaHost+".OnRecvPacket"); rr != nil {
 		c.Check(which, "C37/recv", c.Calls(rr, icaHost+".executeTx"), 1, nil, nil,
 			Req{Name: "packet-identifiers-and-decoded-messages", Args: map[int]string{1: "param#1", 2: "field:SourcePort(param#2)", 3: "field:DestinationPort(param#2)", 4: "field:DestinationChannel(param#2)",
-				5: "extract:0(call:" + icaT + ".DeserializeCosmosTx(field:cdc(param#0), field:Data(_), _))"},
+				5: "extract:0(call:" + icaT + ".DeserializeCosmosTx(field:cdc(param#0), field:Data(_), field:Encoding(extract:0(call:" + icaT + ".MetadataFromVersion(extract:0(call:iface:*ICS4Wrapper.GetAppVersion(_, param#1, field:DestinationPort(param#2), field:DestinationChannel(param#2))))))))"},
 				Any: all("eq(field:Type(_), " + icaT + ".EXECUTE_TX)")})
 	}
 }
